@@ -1206,11 +1206,18 @@ fn inner_obs(k: usize, spec: &InnerSpec) -> Obs {
       }
     })
     .box_it(),
-    InnerSpec::Hot => observable::create(move |h: cat::Handle| {
-      enter();
-      cat::HANDLES.with(|hs| hs.borrow_mut().push((200 + k, h)))
-    })
-    .box_it(),
+    InnerSpec::Hot => {
+      let o: Obs = observable::create(move |h: cat::Handle| {
+        enter();
+        cat::HANDLES.with(|hs| hs.borrow_mut().push((200 + k, h)))
+      })
+      .box_it();
+      // every run of this inner's finalizer is counted (counter 300+k): once per subscription of the inner
+      o.finalize(move || {
+        world::bump(300 + k);
+      })
+      .box_it()
+    }
     InnerSpec::HotSubj => {
       // one Subject per inner index, however often the observable value is built
       let old = cat::SUBJECTS.with(|h| h.borrow().iter().find(|(t, _)| *t == 200 + k).map(|(_, s)| s.clone()));
@@ -1253,11 +1260,17 @@ fn inner_obs_t(k: usize, spec: &InnerSpec) -> ObsT {
       }
     })
     .box_it(),
-    InnerSpec::Hot => observable::create(move |h: cat::HandleT| {
-      enter();
-      cat::HANDLES_T.with(|hs| hs.borrow_mut().push((200 + k, h)))
-    })
-    .box_it(),
+    InnerSpec::Hot => {
+      let o: ObsT = observable::create(move |h: cat::HandleT| {
+        enter();
+        cat::HANDLES_T.with(|hs| hs.borrow_mut().push((200 + k, h)))
+      })
+      .box_it();
+      o.finalize_threads(move || {
+        world::bump(300 + k);
+      })
+      .box_it()
+    }
     InnerSpec::HotSubj => {
       let old = cat::SUBJECTS_T.with(|h| h.borrow().iter().find(|(t, _)| *t == 200 + k).map(|(_, s)| s.clone()));
       let sj = old.unwrap_or_else(|| {
@@ -1494,6 +1507,13 @@ fn drive_c05_x(op: FlatOp, specs: &[InnerSpec], nsteps: usize, limit: usize, pro
         e::note("unsubscribe()".to_string());
         u();
         probe.forbid("delivery-after-unsubscribe/flatten");
+        // every hot inner that was subscribed has been finalized exactly once by now (by its own terminal or by
+        // this unsubscribe)
+        for k in 0..specs.len() {
+          if matches!(specs[k], InnerSpec::Hot) && world::counter(100 + k) >= 1 && world::counter(300 + k) != 1 {
+            e::fail("flatten/inner-finalizer-after-unsubscribe", || format!("inner {} was subscribed {} time(s); after unsubscribe() of the flattened stream its finalizer has run {} time(s)", k, world::counter(100 + k), world::counter(300 + k)));
+          }
+        }
         if let Some(q) = &closed_q {
           if !q() {
             e::fail("flatten/handle-open-after-unsubscribe", || "a remaining handle of the composite reports open after unsubscribe()".to_string());
@@ -1696,8 +1716,8 @@ pub fn harnesses() -> Vec<HarnessDef> {
     format!("{} steps over the outer (emit next inner / complete / error) and every subscribed hot inner (item / complete / error); {} inners, each hot or cold-synchronous (<=2 symbolic items, complete or error); merge_all(1..=k+1), concat_all, flatten, flat_map, concat_map", if t { 7 } else { 6 }, 3)
   }
   add("c05_flatten", vec!["C05", "C01"], "flattening operators vs the queue model; live inner subscriptions counted against the limit; a RefCell double borrow is a caught panic", b5, Box::new(|t| c05_flatten(if t { 7 } else { 6 }, 3, false)), 3_000_000, 40_000_000, true);
-  add("c02_flatten", vec!["C02", "C17"], "flattening operators: unsubscribe() at every step; afterwards no inner (running, queued-then-started, hot or periodic) may deliver", b5, Box::new(|t| c05_flatten_x(if t { 7 } else { 5 }, 3, false, true)), 3_000_000, 40_000_000, true);
-  add("c02_flatten_threads", vec!["C02", "C17"], "same for the _threads forms", b5, Box::new(|t| c05_flatten_x(if t { 7 } else { 5 }, 3, true, true)), 3_000_000, 40_000_000, true);
+  add("c02_flatten", vec!["C02", "C17", "C15"], "flattening operators: unsubscribe() at every step; afterwards no inner (running, queued-then-started, hot or periodic) may deliver", b5, Box::new(|t| c05_flatten_x(if t { 7 } else { 5 }, 3, false, true)), 3_000_000, 40_000_000, true);
+  add("c02_flatten_threads", vec!["C02", "C17", "C15"], "same for the _threads forms", b5, Box::new(|t| c05_flatten_x(if t { 7 } else { 5 }, 3, true, true)), 3_000_000, 40_000_000, true);
   fn b5m(t: bool) -> String {
     format!("3 inner observables, each a create-handle, a Subject or cold (<=2 items); outer a create-handle or from_iter; output direct or multicast through a Subject, optionally cut by take(1|2); {} steps", if t { 6 } else { 4 })
   }
